@@ -85,7 +85,8 @@ pub enum LazerExtra {
     Mirror(Option<&'static str>),
     HoldOff,
     Invert,
-    Random(f64),
+    /// lazer Random mod; `None` = no seed given (the library must then not invent one)
+    Random(Option<f64>),
     /// ar, cs, hp, od
     DifficultyAdjust(Option<f64>, Option<f64>, Option<f64>, Option<f64>),
     /// speed change for whichever rate mod is contained in `bits`
@@ -143,9 +144,9 @@ impl ModsSpec {
                 LazerExtra::Random(seed) => {
                     let mut m = GameMod::new("RD", mm);
                     match &mut m {
-                        GameMod::RandomTaiko(r) => r.seed = Some(*seed),
-                        GameMod::RandomMania(r) => r.seed = Some(*seed),
-                        GameMod::RandomOsu(r) => r.seed = Some(*seed),
+                        GameMod::RandomTaiko(r) => r.seed = *seed,
+                        GameMod::RandomMania(r) => r.seed = *seed,
+                        GameMod::RandomOsu(r) => r.seed = *seed,
                         _ => continue,
                     }
                     mods.insert(m);
@@ -414,7 +415,7 @@ pub fn gen_diff(t: &mut Tape, p: &DiffProfile, mode: GameMode) -> DiffSpec {
             }
         }
         if matches!(mode, GameMode::Mania | GameMode::Taiko) && t.chance(1, 5) {
-            extras.push(LazerExtra::Random(t.range(0, 100_000) as f64));
+            extras.push(LazerExtra::Random(if t.chance(1, 4) { None } else { Some(t.range(0, 100_000) as f64) }));
         }
         if t.chance(1, 6) {
             let v = |t: &mut Tape| if t.coin() { Some((t.range(0, 110) as f64) / 10.0) } else { None };
@@ -509,7 +510,7 @@ impl LazerExtra {
             Self::HoldOff => json!(["HoldOff"]),
             Self::Invert => json!(["Invert"]),
             Self::TenKeys => json!(["TenKeys"]),
-            Self::Random(s) => json!(["Random", fj(*s)]),
+            Self::Random(s) => json!(["Random", ofj(*s)]),
             Self::DifficultyAdjust(a, c, h, o) => json!(["DA", ofj(*a), ofj(*c), ofj(*h), ofj(*o)]),
             Self::Rate(r) => json!(["Rate", fj(*r)]),
         }
@@ -528,7 +529,7 @@ impl LazerExtra {
             "HoldOff" => Self::HoldOff,
             "Invert" => Self::Invert,
             "TenKeys" => Self::TenKeys,
-            "Random" => Self::Random(jf(a.get(1)?)?),
+            "Random" => Self::Random(a.get(1).and_then(jf)),
             "DA" => Self::DifficultyAdjust(a.get(1).and_then(jf), a.get(2).and_then(jf), a.get(3).and_then(jf), a.get(4).and_then(jf)),
             "Rate" => Self::Rate(jf(a.get(1)?)?),
             _ => return None,
